@@ -641,7 +641,8 @@ class Interp:
             return all(self._const_leaves(x) for x in v)
         if isinstance(v, dict):
             return all(self._const_leaves(k) and self._const_leaves(x) for k, x in v.items())
-        return v is None or isinstance(v, (str, int, float, bool, _re.Pattern)) or self._enum_member(v)
+        return (v is None or isinstance(v, (str, int, float, bool, _re.Pattern)) or self._enum_member(v)
+                or (isinstance(v, Residual) and self.idx is not None and self.idx.has_cls(v.text)))   # a reference to a class of the package
 
     def lookup(self, key):
         """value of a store key: explicit store, then rule domain, else None (unknown)"""
@@ -674,7 +675,14 @@ class Interp:
                         except (ValueError, SyntaxError):
                             # a constant expression over literals and stdlib string constants (e.g. string.digits + "-_")
                             try:
-                                v = self.eval(c.class_assigns[attr], {})
+                                sib = {}
+                                for nm in ast.walk(c.class_assigns[attr]):
+                                    # a bare name in a class body is a sibling class-level assignment
+                                    if isinstance(nm, ast.Name) and nm.id in c.class_assigns and nm.id != attr and nm.id not in sib:
+                                        ok2, v2 = self.lookup(f"{c.name}.{nm.id}")
+                                        if ok2:
+                                            sib[nm.id] = v2
+                                v = self.eval(c.class_assigns[attr], sib)
                             except (Undecidable, Raised):
                                 break
                             if isinstance(v, (Residual, Obj)) or not self._const_leaves(v):
@@ -1277,6 +1285,11 @@ class Interp:
             k = f"{args[0].text}.{args[1]}"
             ok, v = self.lookup(k)
             return v if ok else Residual(k)
+        if recv is None and meth == "setattr" and len(args) == 3 and isinstance(args[0], Residual) and isinstance(args[1], str) and meth not in frame:
+            k = f"{args[0].text}.{args[1]}"
+            self.store[k] = args[2]
+            self.path.trace.append(("set", k, args[2]))
+            return None
         # reflection with a constant name on an abstract object: the same store the attribute syntax uses
         if recv is None and meth in ("getattr", "hasattr", "setattr") and len(args) >= 2 and isinstance(args[0], Obj) and isinstance(args[1], str):
             k = f"{args[0].name}.{args[1]}"
